@@ -3,6 +3,7 @@ package main
 import (
 	"go/token"
 	"go/types"
+	"os"
 	"sync"
 
 	"golang.org/x/tools/go/ssa"
@@ -82,3 +83,5 @@ func onlyLoaded(instr *ssa.IndexAddr) bool {
 	onlyLoadedCache.Store(instr, res)
 	return res
 }
+
+var noReplayCheck = os.Getenv("GOSE_NO_REPLAY_CHECK") != ""
